@@ -1,12 +1,13 @@
-(* kind "sigdef" (C16): same script as harness/jlsrun_k_sigdef.h.
-     <data_type> <spd> <sdf> <eps> <sumdf> <anno> <utc> [<signal_id> <source_id> <signal_type>]
+(* kind "sd_sigdef" (C16): same script as harness/jlsrun_k_sigdef.h.
+     <data_type> <spd> <sdf> <eps> <sumdf> <sd_anno> <sd_utc> [<signal_id> <source_id> <signal_type>]
      (a leading "F" - whole path through a file on the C side - is the same computation here)
    numbers decimal or 0x-hex, all < 2^32 (the C side stores them in uint32_t fields).
    argv[2] selects what is printed:
      align (default)  the result line of the C: "<rc> <6 fields>" | "FAULT SIGFPE" | "FAULT TIMEOUT"
-     guard            "<4 guard bits> <eps1> <epd0>"; bits: sdf rounding, spd rounding, eps rounding do not
-                      wrap, annotation/utc factors non-zero after defaults; eps1/epd0 = the loop's arguments
-                      (0 0 if rejected or faulting before the loop) - the loop itself is NOT run in this mode
+                      rc 0: the stored parameters; rejected by validation: the fields as given; rejected by
+                      jls_core_signal_def_align: the fields after defaults (what the C leaves in the struct)
+     loopargs         "<eps1> <epd0>" = the loop's arguments (0 0 if rejected before the loop); the loop itself
+                      is NOT run in this mode (used to budget long-running cases)
      consistent       the line is a stored definition; prints "<11 clause bits of Consistent> <Entry256 bit>" *)
 open Jlsmodel_ext
 open Util
@@ -15,15 +16,15 @@ let n_of_tok (s : string) : n =
   if i < 0 || i > 0xffffffff then failwith ("out of uint32 range: " ^ s) else n_of_int i
 let dec_of_n (x : n) : string = string_of_int (int_of_n x)
 let bits (l : bool list) : string = String.concat "" (List.map (fun b -> if b then "1" else "0") l)
-let fields (d : sigdef) : string =
-  String.concat " " (List.map dec_of_n [d.spd; d.sdf; d.eps; d.sumdf; d.anno; d.utc])
+let fields (d : sd_sigdef) : string =
+  String.concat " " (List.map dec_of_n [d.spd; d.sdf; d.eps; d.sumdf; d.sd_anno; d.sd_utc])
 let () = register "sigdef" (fun ic ->
   let mode = if Array.length Sys.argv > 2 then Sys.argv.(2) else "align" in
   iter_lines ic (fun line ->
     let toks = match split_ws line with "F" :: r -> r | r -> r in
     match (try Some (List.map n_of_tok toks) with _ -> None) with
     | Some (dt :: a :: b :: c :: e :: f :: g :: rest) when rest = [] || List.length rest = 3 ->
-      let d = { spd = a; sdf = b; eps = c; sumdf = e; anno = f; utc = g } in
+      let d = { spd = a; sdf = b; eps = c; sumdf = e; sd_anno = f; sd_utc = g } in
       let (sid, src, ty) = match rest with [x; y; z] -> (x, y, z) | _ -> (n_of_int 1, n_of_int 1, N0) in
       let w = sample_size dt in
       (match mode with
@@ -31,11 +32,12 @@ let () = register "sigdef" (fun ic ->
          (match sd_define sid src ty dt d with
           | Inl rc -> print_endline (dec_of_n rc ^ " " ^ fields d)
           | Inr (SdOk (d', _)) -> print_endline ("0 " ^ fields d')
+          | Inr (SdErr rc) -> print_endline (dec_of_n rc ^ " " ^ fields (sd_defaults w d))
           | Inr (SdFault SdDivZero) -> print_endline "FAULT SIGFPE"
           | Inr (SdFault SdNonterm) -> print_endline "FAULT TIMEOUT")
-       | "guard" ->
+       | "loopargs" ->
          let (e1, e0) = if sd_validate sid src ty dt = N0 then sd_loop_args w d else (N0, N0) in
-         print_endline (bits (guard_bits w d) ^ " " ^ dec_of_n e1 ^ " " ^ dec_of_n e0)
+         print_endline (dec_of_n e1 ^ " " ^ dec_of_n e0)
        | "consistent" ->
          print_endline (bits (consistent_clauses w d) ^ " " ^ bits [entry256b w d])
        | _ -> failwith "mode")
